@@ -1,13 +1,16 @@
 """C01 — HDLC: a frame is reported valid exactly when it is intact, with exact fields; framing of returned frames."""
-from pyvc.engine import *
-from pyvc.run import PropResult
 from props import hdlc_model as M
 
+FRAMING = ("frame_inv", "unstuff(raw)", "octets == raw", "ghost:", "returned", "pre:", "raises:", "safe:", "no pending escape", "consumed", "result is the list")
 def build(repo, tier, seed):
-    eng = M.mk_engine(repo)
-    obls = M.frame_obligations(eng)
-    funcs = sorted({o.func for o in obls if o.func})
-    return PropResult(obls, eng, functions=funcs, derived=sorted(eng.derived),
-        assumptions=["bytearray.append/bytes()/slicing modelled as offset views over one array (DESIGN section 5)"],
-        explanation="C01: frame invariant (running FCS == fcs_fold(octets), cached control position == ctrl_pos(octets)) established by __init__ and preserved by append; "
-                    "is_valid == valid_frame(octets) via the residue lemma over the bit-serial RFC 1662 definition; accessor contracts for every frame satisfying the invariant")
+    r = M.hdlc_result(repo, tier, ("lemmas", "get_address", "init", "append", "valid", "accessors"), True,
+                      select=lambda oid: ("HdlcFrameReader" not in oid) or any(c in oid for c in FRAMING))
+    r.functions = sorted({o.func for o in r.obligations if o.func} | set(M.READER_FUNCS))
+    r.assumptions = ["bytearray.append/extend/clear/find, bytes() and slicing are modelled as offset views over one array (prelude contracts, DESIGN section 5)",
+                     "ghost stream G: the chunks given to read() are consecutive segments of one stream (this is what 'a byte stream split into read() calls' means)"]
+    r.explanation = ("C01: (1) frame invariant (running FCS == fcs_fold(octets), cached control position == ctrl_pos(octets)) established by __init__, preserved by append; "
+                     "(2) is_valid == valid_frame(octets) via the residue lemma over the bit-serial RFC 1662 definition; (3) accessor contracts for every frame satisfying the invariant; "
+                     "(4) reader invariant with ghost input stream: raw octets of the current frame are a contiguous stream segment right after a flag, octets == unstuff(raw) "
+                     "(== raw without stuffing), every returned frame is closed by a flag and starts after the end of the previous returned frame; proved for _read_next (helpers inlined) "
+                     "and for read() through _read_next's contract, in the four reader configurations; unbounded in stream length and chunking (the invariant is the induction hypothesis)")
+    return r
